@@ -105,3 +105,14 @@ package risor
 //@ ensures[C11.init.once] old(cfg.initialized) ==> result == nil && cfg.globals == old(cfg.globals) && forallA(k, string, haskey(cfg.globals, k) == old(haskey(cfg.globals, k)))
 //@ ensures[C11.init.flag] cfg.initialized
 //@ ensures[C11.init.denied] !old(cfg.initialized) && result == nil ==> forallA(k, string, haskey(cfg.denylist, k) && !contains(k, ".") && !haskey(cfg.overrides, k) ==> !haskey(cfg.globals, k))
+
+// ---- C12: the options a Config hands to a VM never reset the host OS ------------------------------------------------
+// risor.Eval / EvalCode / Call apply cfg.VMOpts() to the VM they run on, which may be a reused one (WithVM). An
+// option vm.WithOS(nil) would replace the OS the VM was given earlier by nothing, and the VM would fall back to the
+// real operating system. VMOpts therefore passes WithOS only a non-nil OS (and WithImporter a non-nil importer).
+//@ func (*Config).VMOpts
+//@ props C12
+//@ trusted callpre
+//@ assume[recv.nonnil] cfg != nil
+//@ callpre[C12.opts.os.nonnil] WithOS: arg0 != nil
+//@ callpre[C12.opts.importer.nonnil] WithImporter: arg0 != nil
